@@ -420,7 +420,7 @@ def _state(case, ctx):
     if kind == "forecaster":
         y = d
         ynew = pd.Series(rng.normal(50, 2, 3), index=pd.RangeIndex(y.index[-1] + 1, y.index[-1] + 4))
-        calls = {"predict": lambda e: e.predict(fh), "update": lambda e: e.update(ynew), "update_predict_single": lambda e: e.update_predict_single(ynew, fh=fh),
+        calls = {"predict": lambda e: e.predict(fh), "predict:no-horizon": lambda e: e.predict(), "update": lambda e: e.update(ynew), "update_predict_single": lambda e: e.update_predict_single(ynew, fh=fh),
                  "update_predict": lambda e: e.update_predict(ynew, cv=SlidingWindowSplitter(fh=[1], window_length=1)),
                  "update_predict:default-cv": lambda e: e.update_predict(ynew), "score": lambda e: e.score(ynew.iloc[:2], fh=fh)}
         fit = lambda e: e.fit(y.copy(), fh=fh)  # noqa
